@@ -132,7 +132,13 @@ type Config struct {
 	// carry a time below the clock (a tick that waited in the buffered tick
 	// channel), but never above it and never below the previous tick.
 	Late bool `json:"late_ticks"`
-	Ops  []Op `json:"-"`
+	// FracTick / FracNow: nanoseconds added to every tick time / every reading of the clock
+	// handed to the aggregator. The aggregator works in whole seconds (time.Unix() truncates),
+	// so the reference model is unaffected: anything that rounds instead of truncating, or
+	// compares sub-second times, shows as a difference (group E).
+	FracTick int64 `json:"tick_nanoseconds,omitempty"`
+	FracNow  int64 `json:"clock_nanoseconds,omitempty"`
+	Ops      []Op  `json:"-"`
 	// merged search: every level up to Depth is expanded; beyond it (up to MaxDepth) a level is
 	// expanded only while the frontier has at most Cap states; the last level uses the final alphabet
 	Depth    int `json:"depth_merged"`
@@ -150,7 +156,11 @@ type Config struct {
 }
 
 func (c *Config) ID() string {
-	return fmt.Sprintf("%s fun=%s cache=%v fmt=%s interval=%d wait=%d", c.Group, c.Fun, c.Cache, c.Fmt, c.Interval, c.Wait)
+	s := fmt.Sprintf("%s fun=%s cache=%v fmt=%s interval=%d wait=%d", c.Group, c.Fun, c.Cache, c.Fmt, c.Interval, c.Wait)
+	if c.FracTick != 0 || c.FracNow != 0 {
+		s += fmt.Sprintf(" tick+%dns clock+%dns", c.FracTick, c.FracNow)
+	}
+	return s
 }
 
 const rule = `^(k\d)\..*`
@@ -261,6 +271,20 @@ func configs(thorough bool) []*Config {
 		[]int64{14, 15, 16, 25}, []int64{14, 15, 16, 25, 26})
 	for _, f := range ref.AggFunctions {
 		cs = append(cs, &Config{Group: "D", Fun: f, Regex: rule, Fmt: "$1", Cache: false, Interval: 10, Wait: 5, Init: baseA + 4, Late: true, Ops: opsD, Depth: depth, RawDepth: 2})
+	}
+	// E: groups A and D again with sub-second parts on the times the aggregator is handed (a real
+	// aligned tick fires a fraction after the second, and time.Now() is never a whole second):
+	// (tick fraction, clock fraction) with the clock never behind the tick inside one second.
+	fracs := [][2]int64{{500000000, 500000000}, {999999999, 999999999}, {0, 999999999}, {500000000, 750000000}}
+	funsE := []string{"sum", "last", "count"}
+	if thorough {
+		funsE = ref.AggFunctions
+	}
+	for _, fr := range fracs {
+		for _, f := range funsE {
+			cs = append(cs, &Config{Group: "E", Fun: f, Regex: rule, Fmt: "$1", Cache: false, Interval: 10, Wait: 5, Init: baseA + 4, Ops: opsA, Depth: depth, RawDepth: 2, FracTick: fr[0], FracNow: fr[1]})
+			cs = append(cs, &Config{Group: "E", Fun: f, Regex: rule, Fmt: "$1", Cache: false, Interval: 10, Wait: 5, Init: baseA + 4, Late: true, Ops: opsD, Depth: depth, RawDepth: 2, FracTick: fr[0], FracNow: fr[1]})
+		}
 	}
 	for _, c := range cs {
 		if c.Depth > 0 {
@@ -465,7 +489,7 @@ func (e *executor) start(c *Config) *live {
 	e.execs++
 	atomic.StoreInt64(&e.clock, c.Init)
 	l := &live{c: c, tick: make(chan time.Time), emitted: map[string]int{}}
-	a, err := aggregator.NewMocked(c.Fun, c.m, c.Fmt, c.Cache, uint(c.Interval), uint(c.Wait), false, e.out, 16, e.now, l.tick)
+	a, err := aggregator.NewMocked(c.Fun, c.m, c.Fmt, c.Cache, uint(c.Interval), uint(c.Wait), false, e.out, 16, func() time.Time { return time.Unix(atomic.LoadInt64(&e.clock), c.FracNow) }, l.tick)
 	if err != nil {
 		panic(err)
 	}
@@ -523,7 +547,7 @@ func (e *executor) step(l *live, path []uint8, i int) *Viol {
 		if o.T > atomic.LoadInt64(&e.clock) {
 			atomic.StoreInt64(&e.clock, o.T)
 		}
-		l.tick <- time.Unix(o.T, 0)
+		l.tick <- time.Unix(o.T, c.FracTick)
 		want = l.model.Tick(o.T)
 		l.lastTick = o.T
 	case "clock":
